@@ -31,7 +31,8 @@ PROP = {
                'reference SGR machine Decoder/SgrRef.v)',
  'level_text': 'Coq theorems over executable models of the SGR encoder (true colour), the SGR parameter interpreter, FaceModify::apply, '
                'the command tokeniser over the regenerated production automaton and the escape-sequence cell writer: every modification '
-               'record / face with opaque colours and every character except ESC is read back as itself; for every history of SGR sequences '
+               'record / face with opaque colours is read back as itself (a face minus inverse video, which a record cannot express) and every '
+               'character as itself, except ESC and the C1 introducers, which the encoder writes as U+FFFD on purpose; for every history of SGR sequences '
                'whose parameters are all completely defined by the standards (C06_semantics_wf: no truncated or out-of-range colour '
                'specification, no undefined sub-parameter such as 4:6 or 1:2, numbers of at most 19 digits) interleaved with text, and '
                'every chunking, the cells carry the faces of a reference SGR state machine written from ECMA-48 / xterm, provided none of '
@@ -42,7 +43,8 @@ PROP = {
                'and TerminalWriter as cell writers; tables and the automaton are regenerated each run.',
  'level_note': 'Trusted: Coq kernel + vm_compute; translate/c06gen.py and the verif-hooks DFA dump; hand-written models validated by the '
                'correspondence run; the reference SGR machine (Decoder/SgrRef.v) as the meaning of SGR. Known finding: parameters 7/27/39/49 '
-               '(inverse, default colours) cannot be expressed by FaceModify (repair = additive public-API change); class sgr-inexpressible with require_agree. No axioms.',
+               '(inverse, default colours) cannot be expressed by FaceModify (repair = additive public-API change); class sgr-inexpressible with require_agree, tag derived in the harness from the history. '
+               'Counted: 10 theorems; lemmas C06_roundtrip_empty_modify, C06_text_same, C06_semantics_recorded audited, not counted. No axioms.',
  'technique': 'Coq proof (induction over parameter lists and histories, reflection on the regenerated command automaton, finite sweeps '
               'for bit operations) + regenerated tables/automaton + model/implementation correspondence',
  'design_ref': 'DESIGN.md 6.6',
@@ -61,5 +63,7 @@ PROP = {
                  'numeric parameters have at most 19 digits (longer ones belong to C02)',
                  'C06_semantics_wf: every SGR parameter is completely defined by the standards (sgr_wf: no truncated / out-of-range colour '
                  'specification, no undefined sub-parameter) and none of 7/27/39/49 occurs',
-                 'text consists of Unicode scalar values other than ESC'],
+                 'text through the encoder: every Unicode scalar value (ESC and C1 introducers read back as U+FFFD); text in written histories: '
+                 'scalar values other than ESC',
+                 'the reference machine has the aspects a Face can carry (no underline colour, faint, conceal, overline)'],
 }
